@@ -57,6 +57,10 @@ type row struct {
 	alpn    []string
 	resume  bool
 	sni     string
+	// scripted != "": the peer is the scripted server (verif_server.go), needed for flight shapes the stock server never
+	// produces: "ccert" = certificate sent as CompressedCertificate (brotli), "alps" / "alpsnew" = application_settings in
+	// EncryptedExtensions answered by a client EncryptedExtensions message
+	scripted string
 }
 
 type result struct {
@@ -124,6 +128,14 @@ func connect(r row, ccfg, scfg *tls.Config, ts []triple) *result {
 		defer conn.Close()
 		conn.SetDeadline(time.Now().Add(5 * time.Second))
 		sc := tls.Server(conn, scfg)
+		switch r.scripted {
+		case "ccert":
+			sc = tls.VerifScriptedServer(conn, scfg, &tls.VerifServerScript{CertCompression: 2})
+		case "alps":
+			sc = tls.VerifScriptedServer(conn, scfg, &tls.VerifServerScript{ALPSCodepoint: 17513, ALPSData: []byte("server-settings"), ReadClientEE: true})
+		case "alpsnew":
+			sc = tls.VerifScriptedServer(conn, scfg, &tls.VerifServerScript{ALPSCodepoint: 17613, ALPSData: []byte("server-settings"), ReadClientEE: true})
+		}
 		out := side{err: sc.Handshake()}
 		if out.err == nil {
 			buf := make([]byte, len(ping))
@@ -261,19 +273,23 @@ func run(c *vh.Ctx) {
 	var rows []row
 	for pi, pr := range hs.Parrots() {
 		rows = append(rows,
-			row{pi, pr, "tls13", tls.VersionTLS13, nil, []string{"h2", "http/1.1"}, false, ""},
-			row{pi, pr, "hrr", tls.VersionTLS13, []tls.CurveID{tls.CurveP256}, []string{"h2", "http/1.1"}, false, ""},
-			row{pi, pr, "hrr384", tls.VersionTLS13, []tls.CurveID{tls.CurveP384}, []string{"http/1.1"}, false, ""},
-			row{pi, pr, "tls12", tls.VersionTLS12, nil, []string{"h2", "http/1.1"}, false, ""},
-			row{pi, pr, "alpn-http1", tls.VersionTLS13, nil, []string{"http/1.1"}, false, ""},
-			row{pi, pr, "alpn-none", tls.VersionTLS13, nil, nil, false, ""},
-			row{pi, pr, "alpn-none12", tls.VersionTLS12, nil, nil, false, ""},
-			row{pi, pr, "resume13", tls.VersionTLS13, nil, []string{"h2", "http/1.1"}, true, ""},
-			row{pi, pr, "resume12", tls.VersionTLS12, nil, []string{"h2", "http/1.1"}, true, ""},
-			row{pi, pr, "sni-remove", tls.VersionTLS13, nil, []string{"h2"}, false, "remove"},
-			row{pi, pr, "sni-ip", tls.VersionTLS13, nil, []string{"h2"}, false, "ip"},
-			row{pi, pr, "sni-nospec", tls.VersionTLS13, nil, []string{"h2"}, false, "nospec"},
-			row{pi, pr, "sni-remove12", tls.VersionTLS12, nil, []string{"h2"}, false, "remove"},
+			row{pi, pr, "tls13", tls.VersionTLS13, nil, []string{"h2", "http/1.1"}, false, "", ""},
+			row{pi, pr, "hrr", tls.VersionTLS13, []tls.CurveID{tls.CurveP256}, []string{"h2", "http/1.1"}, false, "", ""},
+			row{pi, pr, "hrr384", tls.VersionTLS13, []tls.CurveID{tls.CurveP384}, []string{"http/1.1"}, false, "", ""},
+			row{pi, pr, "tls12", tls.VersionTLS12, nil, []string{"h2", "http/1.1"}, false, "", ""},
+			row{pi, pr, "alpn-http1", tls.VersionTLS13, nil, []string{"http/1.1"}, false, "", ""},
+			row{pi, pr, "alpn-none", tls.VersionTLS13, nil, nil, false, "", ""},
+			row{pi, pr, "alpn-none12", tls.VersionTLS12, nil, nil, false, "", ""},
+			row{pi, pr, "resume13", tls.VersionTLS13, nil, []string{"h2", "http/1.1"}, true, "", ""},
+			row{pi, pr, "resume12", tls.VersionTLS12, nil, []string{"h2", "http/1.1"}, true, "", ""},
+			row{pi, pr, "sni-remove", tls.VersionTLS13, nil, []string{"h2"}, false, "remove", ""},
+			row{pi, pr, "sni-ip", tls.VersionTLS13, nil, []string{"h2"}, false, "ip", ""},
+			row{pi, pr, "sni-nospec", tls.VersionTLS13, nil, []string{"h2"}, false, "nospec", ""},
+			row{pi, pr, "sni-remove12", tls.VersionTLS12, nil, []string{"h2"}, false, "remove", ""},
+			row{pi, pr, "scripted-ccert", tls.VersionTLS13, nil, []string{"h2"}, false, "", "ccert"},
+			row{pi, pr, "scripted-ccert-hrr", tls.VersionTLS13, []tls.CurveID{tls.CurveP256}, []string{"h2"}, false, "", "ccert"},
+			row{pi, pr, "scripted-alps", tls.VersionTLS13, nil, []string{"h2"}, false, "", "alps"},
+			row{pi, pr, "scripted-alpsnew", tls.VersionTLS13, nil, []string{"h2"}, false, "", "alpsnew"},
 		)
 	}
 	results := make([]*result, len(rows))
@@ -288,6 +304,9 @@ func run(c *vh.Ctx) {
 			defer wg.Done()
 			defer func() { <-sem }()
 			ccfg := p.ClientConfig()
+			if strings.HasPrefix(r.scripted, "alps") {
+				ccfg.ApplicationSettings = map[string][]byte{"h2": []byte("client-settings")}
+			}
 			if r.sni == "ip" {
 				ccfg.ServerName = "127.0.0.1"
 				ccfg.InsecureSkipVerify = true
@@ -395,7 +414,7 @@ func judge(c *vh.Ctx, r row, ts []triple, res *result) {
 		key, r.sni != "" || res.hasSNI, map[string]any{"in": in, "client": cs.ServerName, "server": ss.ServerName, "wire": res.wireSNI})
 
 	// ---- model: negotiated parameters ----
-	fl, ok := flightTerm(res, ss)
+	fl, ok := flightTerm(res, ss, r.scripted == "ccert")
 	if !ok {
 		c.Count("flight-not-parsed")
 		return
